@@ -360,7 +360,7 @@ func cmdRun(args []string) int {
 			sh := (i + int(seed%int64(workers)) + workers) % workers
 			cmd := exec.Command("sh", "-c", fmt.Sprintf("ulimit -v 12000000; exec %s -check %s -tier %s -shard %d -nshards %d -budget %g -out %s", bin, id, tier, sh, workers, budget, out))
 			marker := filepath.Join(w, fmt.Sprintf("marker_%d", i))
-			cmd.Env = append(os.Environ(), "GOMAXPROCS=1", "GOMEMLIMIT=3GiB", "GOGC=400", "VERIF_MARKER="+marker)
+			cmd.Env = append(os.Environ(), "GOMAXPROCS=1", "GOMEMLIMIT=1536MiB", "GOGC=400", "VERIF_MARKER="+marker)
 			var eb bytes.Buffer
 			cmd.Stderr = &eb
 			cmd.Stdout = &eb
@@ -399,6 +399,14 @@ func cmdRun(args []string) int {
 							results[i] = &shardResult{Check: id, Shard: sh, EnumViol: []json.RawMessage{ev}, Incomplete: []string{fmt.Sprintf("shard %d crashed", sh)}}
 							return
 						}
+					}
+					if strings.Contains(err.Error(), "signal: killed") && eb.Len() == 0 {
+						// killed from outside without a word (the kernel's out-of-memory killer on a
+						// machine shared with other jobs): what this shard would have explored is
+						// reported as not covered, it is neither a verdict nor a failure of the check
+						fmt.Fprintf(os.Stderr, "note: worker %d was killed by the system (memory pressure?); its share of the scenarios is reported as not explored\n", sh)
+						results[i] = &shardResult{Check: id, Shard: sh, Incomplete: []string{fmt.Sprintf("shard %d of %d was killed by the system before it could report; its scenarios were not explored", sh, workers)}}
+						return
 					}
 					errs[i] = fmt.Sprintf("shard %d: %v\n%s", sh, err, tail(eb.String(), 4000))
 					return
